@@ -648,6 +648,9 @@ func (Prop) Run(c *engine.Ctx) {
 		}
 		runEP(c, e)
 	}
+	if filter == "" || strings.Contains("sm9.KeyExchange/history", filter) {
+		runKXHist(c)
+	}
 	if filter != "" {
 		kase(c, "dev-filter-active", func(t *engine.T) { t.Eval(1); t.Cap("C13_DEV_FILTER=" + filter + ": partial run, not evidence") })
 	}
